@@ -494,7 +494,7 @@ func c19Scenarios(c *vx.Ctx) (all []c19Scn, small []c19Scn) {
 				}
 			}
 		}
-		add(c19Scn{Streams: "uni1", Bytes: 40000, WChunk: 100, Flush: "none", RChunk: 100, Buf: 512})
+		add(c19Scn{Streams: "uni1", Bytes: 10000, WChunk: 100, Flush: "none", RChunk: 100, Buf: 512})
 		add(c19Scn{Streams: "bidi1", Bytes: 40000, Flush: "end"})
 		add(c19Scn{Streams: "uni3", Bytes: 40000, WChunk: 100, Flush: "none", RChunk: 100})
 	}
@@ -553,7 +553,7 @@ func TestVerif_C19(t *testing.T) {
 		kindsMulti := []string{"drop", "dup3", "hold1", "late", "part"}
 		kAll := vx.Pick(c, 1, 2)
 		kSmall := vx.Pick(c, 2, 3)
-		pairMaxN := 40
+		pairMaxN := 30
 		c.Rule(fmt.Sprintf("fault enumeration: %d application scenarios (streams x bytes x write chunking x flush x read chunk x buffer sizes x pause-before-close, listed in c19Scenarios) on two real quic Endpoints with real TLS in a synctest bubble; per scenario the default run (deliver everything in order) plus (part k1) every single deviation from {drop, dup, dup3, hold1, hold3, late (timer first), part (4 s black hole)} at every datagram index 0..N+2 of the default run (both directions; N measured per scenario), (part dead) a permanent black hole at every index for the %d smallest scenarios, (part k2..) every placement of 2..k deviations from {drop, dup3, hold1, late, part} at increasing indices, k=%d for every scenario with N<=%d and k=%d for the smallest scenarios. After the last deviation the network is perfect. Non-trivial = all deviations of the case took effect and the run completed", len(all), len(small), kAll, pairMaxN, kSmall))
 		c.Assume("timeouts are outside the property: HandshakeTimeout and MaxIdleTimeout are disabled on both endpoints; instead every application operation must complete (reads to io.EOF, Close()==nil) within 1 h of fake time and 4000 datagrams once the network delivers again")
 		c.Assume("packet-number skipping (the only randomness that changes packet structure) is moved out of reach white-box; connection IDs and TLS randomness only change values. Go select order inside an endpoint is not owned: oracles hold on every outcome")
